@@ -1164,13 +1164,20 @@ class Machine:
         from .models_std import OStr
         vals = []
         opaque = False
-        for a in args:
-            v = self.load(a) if isinstance(a, Ref) else a
+        def terms_of(v):
+            nonlocal opaque
+            if isinstance(v, Ref):
+                v = self.load(v)
             if isinstance(v, OStr):
                 opaque = True
-                vals.append(v.term)
-            else:
-                vals.append(repr(v))
+                return v.term
+            if hasattr(v, 'items') and isinstance(getattr(v, 'items'), tuple):
+                return tuple(terms_of(x) for x in v.items)
+            if isinstance(v, tuple):
+                return tuple(terms_of(x) for x in v)
+            return repr(v)
+        for a in args:
+            vals.append(terms_of(a))
         if not opaque:
             raise exc
         h = head_ident(dest_ty) if dest_ty else ''
